@@ -39,7 +39,7 @@ def check_effects(rep, model):
         if ef["kind"] == "aug-name":
             v = ef["value"]
             numeric = isinstance(v, (ast.Constant, ast.Name, ast.BinOp, ast.Call, ast.Attribute, ast.UnaryOp)) and not \
-                isinstance(v, (ast.List, ast.ListComp))
+                isinstance(v, (ast.List, ast.ListComp)) and not ef.get("setop")
             if ef["owned"] or numeric and ef["root"] not in [a.arg for a in fi.node.args.args]:
                 rep.ok("C10.no-borrowed-mutation", f"{q}: {ef['target']} op=", ef["where"], "rebinding / owned local",
                        nontrivial=False)
